@@ -102,8 +102,9 @@ func (op *ROp) Exec(db *gorm.DB) (res Result) {
 		err := db.Model(&fam.User{ID: op.Target}).Association("Pets").Find(&ps)
 		return Result{Err: err, Value: &ps}
 	case "assoc_count":
-		n := db.Model(&fam.User{ID: op.Target}).Association("Languages").Count()
-		return Result{Value: &n}
+		as := db.Model(&fam.User{ID: op.Target}).Association("Languages")
+		n := as.Count()
+		return Result{Err: as.Error, Value: &n}
 	}
 	return Result{Err: fmt.Errorf("ops: unknown read kind %q", op.Kind)}
 }
